@@ -263,6 +263,21 @@ def sites_in(f: FuncInfo) -> List[Dict[str, object]]:
             if d in self_alias and isinstance(node.ctx, ast.Load):
                 return ast.Name(id=self_alias[d], ctx=ast.Load())
             return self.generic_visit(node)
+    # `if p is None: p = <default>` at the top of the function: from then on p stands for (<default> if p is None else p)
+    none_defaults: Dict[str, ast.AST] = {}
+    for st_ in f.node.body:
+        if isinstance(st_, ast.If) and not st_.orelse and len(st_.body) == 1 and isinstance(st_.body[0], ast.Assign) and len(st_.body[0].targets) == 1 and \
+                isinstance(st_.body[0].targets[0], ast.Name) and isinstance(st_.test, ast.Compare) and len(st_.test.ops) == 1 and \
+                isinstance(st_.test.ops[0], ast.Is) and isinstance(st_.test.comparators[0], ast.Constant) and st_.test.comparators[0].value is None and \
+                isinstance(st_.test.left, ast.Name) and st_.test.left.id == st_.body[0].targets[0].id and st_.test.left.id in params:
+            none_defaults[st_.test.left.id] = st_.body[0].value
+
+    class _NoneDefault(ast.NodeTransformer):
+        def visit_Name(self, node):
+            if isinstance(node.ctx, ast.Load) and node.id in none_defaults:
+                return ast.IfExp(test=ast.Compare(left=ast.Name(id=node.id, ctx=ast.Load()), ops=[ast.Is()], comparators=[ast.Constant(None)]),
+                                 body=_copy.deepcopy(none_defaults[node.id]), orelse=ast.Name(id=node.id, ctx=ast.Load()))
+            return node
     pm_ = parents_map(f.node)
 
     def loops_of(node) -> List[ast.AST]:
@@ -300,7 +315,13 @@ def sites_in(f: FuncInfo) -> List[Dict[str, object]]:
         mapping: Dict[str, str] = {}
         for depth, lp in enumerate(chain):
             if isinstance(lp, ast.For):
-                for j, nme in enumerate([n.id for n in ast.walk(lp.target) if isinstance(n, ast.Name)]):
+                tgt = lp.target
+                if isinstance(lp.iter, ast.Call) and dotted(lp.iter.func) == "enumerate" and len(lp.iter.args) == 1 and isinstance(tgt, ast.Tuple) and len(tgt.elts) == 2 and \
+                        isinstance(tgt.elts[0], ast.Name):
+                    # for i, x in enumerate(X): x is numbered like the element of `for x in X`, i gets its own name
+                    mapping[tgt.elts[0].id] = f"L{depth}_idx"
+                    tgt = tgt.elts[1]
+                for j, nme in enumerate([n.id for n in ast.walk(tgt) if isinstance(n, ast.Name)]):
                     mapping[nme] = f"L{depth}_{j}"
         ldefs = {k: v for k, v in defs.items() if k not in mapping}
 
@@ -309,6 +330,8 @@ def sites_in(f: FuncInfo) -> List[Dict[str, object]]:
             if extra:
                 m.update(extra)
             x = substitute_locals(e, ldefs)
+            if none_defaults and getattr(e, "lineno", 10 ** 9) > 0:
+                x = _NoneDefault().visit(x)
             x = _SelfAlias().visit(x)
             x = Renamer(m).visit(_copy.deepcopy(x))
             return _rename_comprehensions(x)
@@ -334,7 +357,12 @@ def sites_in(f: FuncInfo) -> List[Dict[str, object]]:
                 break
             cur2 = par2
         isve = raise_is_value_error(r, f.node)
-        base_loop = canon_iter(C(loop.iter)) if isinstance(loop, ast.For) else (norm(C(loop.test)) if loop is not None else None)
+        def _loop_text(lp_):
+            it_ = lp_.iter
+            if isinstance(it_, ast.Call) and dotted(it_.func) == "enumerate" and len(it_.args) == 1:
+                it_ = it_.args[0]
+            return canon_iter(C(it_))
+        base_loop = _loop_text(loop) if isinstance(loop, ast.For) else (norm(C(loop.test)) if loop is not None else None)
         for (dt, dpol, gens) in _split_raise_test(t, pol):
             if gens is None:
                 tf = B.parse_pol(C(dt), dpol)
